@@ -5,6 +5,7 @@ import (
 	"go/constant"
 	"go/token"
 	"go/types"
+	"reflect"
 	"strings"
 	"unicode"
 	"unicode/utf8"
@@ -35,6 +36,7 @@ import (
 type aval struct {
 	k      constant.Value // scalar
 	fields map[int]*aval  // struct
+	typ    []string       // an abstract reflect.Type: its kinds from the outside in ("ptr", "struct")
 }
 
 func (a *aval) String() string {
@@ -63,17 +65,18 @@ type ncOutcome struct {
 
 type ncInterp struct {
 	c            *Ctx
+	concrete     bool // every value is given: no scenario shortcuts
 	lookup       *ssa.Lookup
 	holderAbsent bool
 	curFrame     *ncFrame
 	holder       *aval
-	dc      int64
-	tc      bool
-	mem     map[ssa.Value]*aval // allocs
-	out     ncOutcome
-	steps   int
-	failed  string
-	topLoop map[*ssa.BasicBlock]bool
+	dc           int64
+	tc           bool
+	mem          map[ssa.Value]*aval // allocs
+	out          ncOutcome
+	steps        int
+	failed       string
+	topLoop      map[*ssa.BasicBlock]bool
 }
 
 func (in *ncInterp) fail(why string) *aval {
@@ -200,7 +203,7 @@ func (in *ncInterp) eval1(fr *ncFrame, v ssa.Value, depth int) *aval {
 		return in.fail("another map lookup")
 	case *ssa.Extract:
 		// a commaok result of a tag lookup: whether the tag is present
-		if isBoolType(x.Type()) && in.isTagDerived(x) {
+		if !in.concrete && isBoolType(x.Type()) && in.isTagDerived(x) {
 			return &aval{k: constant.MakeBool(in.tc)}
 		}
 		t := in.eval(fr, x.Tuple, depth-1)
@@ -210,8 +213,27 @@ func (in *ncInterp) eval1(fr *ncFrame, v ssa.Value, depth int) *aval {
 		return t.fields[x.Index]
 	case *ssa.Call:
 		key := core.CalleeKey(&x.Call)
-		if key == "builtin.len" && len(x.Call.Args) == 1 && sliceMentionsField(x.Call.Args[0], "Index") {
+		if !in.concrete && key == "builtin.len" && len(x.Call.Args) == 1 && sliceMentionsField(x.Call.Args[0], "Index") {
 			return &aval{k: constant.MakeInt64(in.dc)}
+		}
+		if x.Call.IsInvoke() {
+			recv := in.evalQuiet(fr, x.Call.Value, depth-1)
+			if recv != nil && recv.typ != nil {
+				kinds := map[string]int64{"bool": 1, "int": 2, "string": 24, "struct": 25, "ptr": 22, "slice": 23, "map": 21, "interface": 20}
+				switch x.Call.Method.Name() {
+				case "Kind":
+					if len(recv.typ) > 0 {
+						return &aval{k: constant.MakeInt64(kinds[recv.typ[0]])}
+					}
+				case "Elem":
+					if len(recv.typ) > 1 {
+						return &aval{typ: recv.typ[1:]}
+					}
+				case "Name":
+					return &aval{k: constant.MakeString("")}
+				}
+			}
+			return in.fail("interface method call " + x.Call.Method.Name())
 		}
 		if r := in.pureLibCall(fr, key, x, depth); r != nil {
 			return r
@@ -227,7 +249,7 @@ func (in *ncInterp) eval1(fr *ncFrame, v ssa.Value, depth int) *aval {
 		return in.run(callee, args, nil, 0)
 	case *ssa.BinOp:
 		// "the json tag gives a name"
-		if (x.Op == token.NEQ || x.Op == token.EQL) && isBoolType(x.Type()) {
+		if !in.concrete && (x.Op == token.NEQ || x.Op == token.EQL) && isBoolType(x.Type()) {
 			for _, pair := range [][2]ssa.Value{{x.X, x.Y}, {x.Y, x.X}} {
 				if s, ok := constString(pair[1]); ok && s == "" && in.isTagDerived(pair[0]) {
 					return &aval{k: constant.MakeBool(in.tc == (x.Op == token.NEQ))}
@@ -691,6 +713,31 @@ func (in *ncInterp) pureLibCall(fr *ncFrame, key string, x *ssa.Call, depth int)
 		return nil
 	}
 	switch key {
+	case "reflect.StructField.IsExported":
+		a := in.evalQuiet(fr, x.Call.Args[0], depth-1)
+		if a != nil && a.fields != nil && a.fields[1] != nil && a.fields[1].k != nil {
+			return b(constant.StringVal(a.fields[1].k) == "")
+		}
+	case "reflect.StructTag.Get":
+		if s, ok := argStr(0); ok {
+			if k, ok := argStr(1); ok {
+				return &aval{k: constant.MakeString(reflect.StructTag(s).Get(k))}
+			}
+		}
+	case "reflect.StructTag.Lookup":
+		if s, ok := argStr(0); ok {
+			if k, ok := argStr(1); ok {
+				v, found := reflect.StructTag(s).Lookup(k)
+				return &aval{fields: map[int]*aval{0: {k: constant.MakeString(v)}, 1: b(found)}}
+			}
+		}
+	case "strings.Cut":
+		if s, ok := argStr(0); ok {
+			if sep, ok := argStr(1); ok {
+				before, after, found := strings.Cut(s, sep)
+				return &aval{fields: map[int]*aval{0: {k: constant.MakeString(before)}, 1: {k: constant.MakeString(after)}, 2: b(found)}}
+			}
+		}
 	case "strings.ContainsRune":
 		if s, ok := argStr(0); ok {
 			if r, ok := argRune(1); ok {
@@ -931,5 +978,127 @@ func (in *ncInterp) afterEntryByShape(from *ssa.BasicBlock) {
 		if all {
 			in.out.appendedOrder, in.out.postEntryKnown = true, true
 		}
+	}
+}
+
+// evalTagParser runs the tag parser abstractly on one struct field: Go name, exportedness, embeddedness, the kinds
+// of its type from the outside in, and the whole tag string. It returns the fields `omit` and `name` of the
+// parser's result (found by type: the bool and the string field of the result struct).
+func evalTagParser(c *Ctx, tp *ssa.Function, goName string, exported, anonymous bool, typ []string, tag string) (omit bool, name string, why string) {
+	pkgPath := ""
+	if !exported {
+		pkgPath = "example.com/p"
+	}
+	f := &aval{fields: map[int]*aval{
+		0: {k: constant.MakeString(goName)},
+		1: {k: constant.MakeString(pkgPath)},
+		2: {typ: typ},
+		3: {k: constant.MakeString(tag)},
+		4: {k: constant.MakeInt64(0)},
+		6: {k: constant.MakeBool(anonymous)},
+	}}
+	in := &ncInterp{c: c, mem: map[ssa.Value]*aval{}, concrete: true}
+	args := []*aval{f}
+	for len(args) < len(tp.Params) {
+		args = append(args, nil)
+	}
+	r := in.run(tp, args, nil, 0)
+	if in.failed != "" || r == nil || r.fields == nil {
+		if in.failed == "" {
+			in.failed = "no struct result"
+		}
+		return false, "", in.failed
+	}
+	st, ok := tp.Signature.Results().At(0).Type().Underlying().(*types.Struct)
+	if !ok {
+		return false, "", "result is not a struct"
+	}
+	omitIdx, nameIdx := -1, -1
+	for k := 0; k < st.NumFields(); k++ {
+		switch {
+		case isBoolType(st.Field(k).Type()) && omitIdx < 0:
+			omitIdx = k
+		case tString(st.Field(k).Type()) && nameIdx < 0:
+			nameIdx = k
+		}
+	}
+	if omitIdx < 0 || nameIdx < 0 {
+		return false, "", "result struct has no bool/string field"
+	}
+	if v := r.fields[omitIdx]; v != nil && v.k != nil && v.k.Kind() == constant.Bool {
+		omit = constant.BoolVal(v.k)
+	}
+	if v := r.fields[nameIdx]; v != nil && v.k != nil && v.k.Kind() == constant.String {
+		name = constant.StringVal(v.k)
+	}
+	return omit, name, ""
+}
+
+func init() {
+	for _, pid := range []string{"C04", "C09", "C16"} {
+		pid := pid
+		p := Properties[pid]
+		if p == nil {
+			continue
+		}
+		p.Rules = append(p.Rules, Rule{pid + "/tag-parser-cases", func(c *Ctx) { ruleTagParserCases(c, pid+"/tag-parser-cases") }})
+	}
+}
+
+// Which fields encoding/json sees, and under which name, as a table of cases the tag parser is evaluated on:
+// an unexported field counts only if it is an embedded struct (or pointer to one); "-" omits, "-," names the field
+// "-"; a valid name is used, an invalid one ignored. (Options are left to the shape rules of tag-parser.)
+func ruleTagParserCases(c *Ctx, rule string) {
+	m := c.inferModel(rule)
+	if m == nil {
+		return
+	}
+	tp := c.roles["role:tag-parser"]
+	if tp == nil || len(tp.Params) != 1 {
+		c.R.OK(rule, "not-evaluated", "", "the tag parser is not a function of the field alone: nothing concluded here")
+		return
+	}
+	type tc struct {
+		label               string
+		exported, anonymous bool
+		typ                 []string
+		tag                 string
+		wantOmit            bool
+		wantName            string
+	}
+	cases := []tc{
+		{"exported/no-tag", true, false, []string{"string"}, "", false, "F"},
+		{"exported/dash", true, false, []string{"string"}, `json:"-"`, true, ""},
+		{"exported/dash-comma", true, false, []string{"string"}, `json:"-,"`, false, "-"},
+		{"exported/name", true, false, []string{"string"}, `json:"abc"`, false, "abc"},
+		{"exported/invalid-name", true, false, []string{"string"}, `json:"it's"`, false, "F"},
+		{"exported/name-with-space", true, false, []string{"string"}, `json:"a b"`, false, "a b"},
+		{"exported/other-key-only", true, false, []string{"string"}, `yaml:"x"`, false, "F"},
+		{"unexported/plain", false, false, []string{"string"}, "", true, ""},
+		{"unexported/plain-struct", false, false, []string{"struct"}, "", true, ""},
+		{"unexported/embedded-struct", false, true, []string{"struct"}, "", false, "F"},
+		{"unexported/embedded-pointer-to-struct", false, true, []string{"ptr", "struct"}, "", false, "F"},
+		{"unexported/embedded-non-struct", false, true, []string{"string"}, "", true, ""},
+		{"unexported/embedded-pointer-to-non-struct", false, true, []string{"ptr", "int"}, "", true, ""},
+		{"exported/embedded-non-struct", true, true, []string{"string"}, "", false, "F"},
+	}
+	type out struct {
+		omit bool
+		name string
+	}
+	var outs []out
+	for _, k := range cases {
+		o, n, why := evalTagParser(c, tp, "F", k.exported, k.anonymous, k.typ, k.tag)
+		if why != "" {
+			c.R.OK(rule, "not-evaluated", c.P.Pos(tp.Pos()), "the tag parser could not be evaluated on the case "+k.label+" ("+why+"): nothing concluded here")
+			return
+		}
+		outs = append(outs, out{o, n})
+	}
+	for i, k := range cases {
+		got := outs[i]
+		ok := got.omit == k.wantOmit && (k.wantOmit || got.name == k.wantName)
+		c.R.Check(ok, rule, core.FuncName(tp)+":"+k.label, c.P.Pos(tp.Pos()), "as encoding/json treats the field",
+			fmt.Sprintf("for a field (exported=%v, embedded=%v, type kinds %v, tag %q) the tag parser says omit=%v name=%q; encoding/json: omit=%v name=%q", k.exported, k.anonymous, k.typ, k.tag, got.omit, got.name, k.wantOmit, k.wantName))
 	}
 }
